@@ -784,7 +784,9 @@ where
             }
             Instruction::MStructSet(n) => {
                 let n: usize = n.into();
-                let mut field_name_value_pairs = Vec::with_capacity(n);
+                // `n` comes from the module and may be arbitrarily large; do not
+                // preallocate from it (capacity overflow panic / allocation abort).
+                let mut field_name_value_pairs = Vec::new();
 
                 for _ in 0..n {
                     let field_val = self.ipop_value()?;
